@@ -532,8 +532,10 @@ def _run(ck, tier):
     ck.cov["transient_deaths_ignored"] = transient
     for v in valid:
         o = outs[v["id"]]
-        # (what the library does with the object AFTER loading it is judged like any other outcome)
-        if v["realok"] and (o["outcome"] == "fail" or (o["outcome"] != "ok" and o.get("stage", "load") == "load")):
+        # (a valid file that is refused cleanly means that the binding of the model to the library is broken -- whether a
+        #  file written by the library loads is C08's matter; a valid file on which the loader dies is judged like any other
+        #  outcome: it is a violation)
+        if v["realok"] and o["outcome"] == "fail":
             raise Broken("a valid file of the model is not loaded by the real library: %s -> %s %s" %
                          (v["text"][:300], outs[v["id"]], sani.get(v["id"])))
     stats = evaluate(ck, files + valid, outs, sani, "main")
